@@ -3,6 +3,13 @@
   trace of real Routers, written without reference to the model function) and the CONFORMANCE replay of a trace
   through the model `Pipeline.act`.  Core-only, executable.
 
+  Request `ps …` (same grammar): a fan-out DAG contains one chain source → … → branch → final topic per branch; a sibling
+  branch being stopped is read as a fault of THAT chain only – the at-least-once clause is demanded of every chain whose
+  handlers keep running: every source lineage must arrive at the final topic through every surviving branch.  (A handler
+  Stop is not one of the fault kinds the statement of C01 lists; the class is there because losing a message for the
+  branches that keep running is a loss "through a pipeline" all the same.)  These traces are judged by the monitor only;
+  the model has no Stop step, the M line echoes `ok` / `stuck`.
+
   Request:   pl <shape> <N> <gochannel cfg> <wiring> <yield> <seed> <faults> <event>*
      shape   stages separated by `/`, each the comma separated list of successor stages, optionally followed by
              `x<w>`: the handler of that stage returns w output messages per input; `-` = no handler stage
@@ -31,6 +38,9 @@
              pr.S.L.I.R      the publisher wrapper returns R ∈ ok err panic to the Router (once per Publish call)
              st.S.L.I.ack|nack   the consumed copy of invocation I was observed settled
              sk.L            the sink subscription received a copy of lineage L
+             stop.S          (request word `ps` only) the harness stops the handler of branch stage S with Handler.Stop() while the
+                             dispatcher of the fan-out topic stands between its first and its second subscription
+             sb.L.S          (`ps` only, after sk.L) that copy was handed to the final topic by stage S
              end             quiescence reached: nothing in flight (every source lineage at the sink is CHECKED, not assumed)
              stuck           the liveness bound (≥ 30 s) passed without quiescence
 -/
@@ -54,6 +64,8 @@ inductive Ev
   | pubRet (st l inv : Nat) (r : PubRes)
   | settle (st l inv : Nat) (ack : Bool)
   | sinkRecv (l : Nat)
+  | stopped (st : Nat)
+  | sinkVia (l st : Nat)
   | finish
   | stuck
   deriving DecidableEq, Repr
@@ -77,6 +89,8 @@ def parseEv (tok : String) : Option Ev :=
   | ["sr", l, "ok"] => do some (.srcRet (← l.toNat?) true)
   | ["sr", l, "err"] => do some (.srcRet (← l.toNat?) false)
   | ["sk", l] => do some (.sinkRecv (← l.toNat?))
+  | ["stop", s] => do some (.stopped (← s.toNat?))
+  | ["sb", l, s] => do some (.sinkVia (← l.toNat?) (← s.toNat?))
   | ["hs", s, l, i] => do some (.hStart (← s.toNat?) (← l.toNat?) (← i.toNat?))
   | ["pc", s, l, i] => do some (.pubCall (← s.toNat?) (← l.toNat?) (← i.toNat?))
   | ["early", s, l, i] => do some (.early (← s.toNat?) (← l.toNat?) (← i.toNat?))
@@ -129,6 +143,8 @@ def parseFaults (s : String) : Option (List Fault) :=
       | _ => none)
 
 structure Req where
+  stopClass : Bool        -- request word `ps`
+  branches  : List Nat    -- the stages that publish to the final topic
   shape  : Shape          -- the model's shape (`modelShape`)
   stages : Nat
   widths : List Nat
@@ -138,11 +154,15 @@ structure Req where
 
 def parseReq (fields : List String) : Option Req :=
   match fields with
-  | "pl" :: shape :: n :: _gc :: _wiring :: yld :: seed :: faults :: evs => do
+  | word :: shape :: n :: _gc :: _wiring :: yld :: seed :: faults :: evs => do
+    if word != "pl" && word != "ps" then none
     let _ ← yld.toNat?
     let _ ← seed.toNat?
     let (succ, widths) ← parseShape shape
-    some { shape := modelShape succ widths, stages := succ.length, widths := widths, n := ← n.toNat?,
+    let idx := List.range succ.length
+    some { stopClass := word == "ps",
+           branches := idx.filter (fun s => (succ.getD s []).contains succ.length),
+           shape := modelShape succ widths, stages := succ.length, widths := widths, n := ← n.toNat?,
            faults := ← parseFaults faults, evs := ← evs.mapM parseEv }
   | _ => none
 
@@ -155,18 +175,25 @@ structure MS where
   starts    : List (Nat × Nat × Nat) := []    -- (stage, lineage, invocation) of every handler start
   nacks     : List (Nat × Nat × Nat) := []
   sunk      : List Nat := []                  -- (derived) lineages received by the sink
+  via       : List (Nat × Nat) := []          -- (lineage, branch stage) of the copies received by the sink
+  halted    : List Nat := []                  -- stages whose handler the harness stopped
   done      : Bool := false
 
 def nackedAllRedelivered (m : MS) : Bool :=
-  m.nacks.all (fun (st, l, inv) => m.starts.any (fun (st', l', inv') => st' == st && l' == l && inv < inv'))
+  m.nacks.all (fun (st, l, inv) => m.halted.contains st || m.starts.any (fun (st', l', inv') => st' == st && l' == l && inv < inv'))
 
 /-- every leaf lineage of every successfully published source lineage is at the sink;
     `leaves` = number of derived lineages per source lineage at the sink -/
 def allDelivered (leaves : Nat) (m : MS) : Bool :=
   m.srcOk.all (fun l => (List.range leaves).all (fun k => m.sunk.contains (l * leaves + k)))
 
+/-- `ps`: every successfully published source lineage arrived through every branch that keeps running
+    (`branches = []` for `pl` requests: nothing to check) -/
+def allBranchesDelivered (branches : List Nat) (m : MS) : Bool :=
+  branches.all (fun b => m.halted.contains b || m.srcOk.all (fun l => m.via.contains (l, b)))
+
 /-- one event; `Except.error rule` = the property is violated.  `widths` = outputs per input of every stage. -/
-def monStep (widths : List Nat) (m : MS) : Ev → Except String MS
+def monStep (widths : List Nat) (branches : List Nat) (m : MS) : Ev → Except String MS
   | .srcCall l => .ok { m with srcCalled := l :: m.srcCalled }
   | .srcRet l ok => .ok (if ok then { m with srcOk := l :: m.srcOk } else m)
   | .hStart st l inv => .ok { m with starts := (st, l, inv) :: m.starts }
@@ -174,6 +201,8 @@ def monStep (widths : List Nat) (m : MS) : Ev → Except String MS
   | .pubCall .. => .ok m
   | .pubInner .. => .ok m
   | .pubRet .. => .ok m
+  | .stopped st => .ok { m with halted := st :: m.halted }
+  | .sinkVia l st => .ok { m with via := (l, st) :: m.via }
   | .pubAccepted _ _ inv j => .ok { m with accepted := (inv, j) :: m.accepted }
   -- "A stage gives a message up (Ack) only after the next topic accepted its output" – every output of that invocation
   | .early .. => .error "ack_after_accept(settled-before-publish-returned)"
@@ -193,23 +222,25 @@ def monStep (widths : List Nat) (m : MS) : Ev → Except String MS
     if !(allDelivered (fanBefore widths widths.length) m) then .error "delivered(lineage-missing-at-sink)"
     -- "until then the message is redelivered"
     else if !(nackedAllRedelivered m) then .error "redelivered(nacked-copy-never-redelivered)"
+    else if !(allBranchesDelivered branches m) then .error "delivered(lineage-missing-behind-a-surviving-branch)"
     else .ok { m with done := true }
   | .stuck =>
     if !(allDelivered (fanBefore widths widths.length) m) then .error "delivered(stuck:lineage-missing-at-sink)"
     else if !(nackedAllRedelivered m) then .error "redelivered(stuck:nacked-copy-never-redelivered)"
+    else if !(allBranchesDelivered branches m) then .error "delivered(stuck:lineage-missing-behind-a-surviving-branch)"
     else .error "stuck(no-quiescence-within-liveness-bound)"
 
-def monRun (widths : List Nat) : MS → List Ev → String
+def monRun (widths : List Nat) (branches : List Nat) : MS → List Ev → String
   | m, [] => if m.done then "ok" else "bad-op"
   | m, e :: rest =>
     if m.done then "bad-op" else
-    match monStep widths m e with
-    | .ok m' => monRun widths m' rest
+    match monStep widths branches m e with
+    | .ok m' => monRun widths branches m' rest
     | .error r => "violated:" ++ r
 
 def monitor (fields : List String) : String :=
   match parseReq fields with
-  | some r => monRun r.widths {} r.evs
+  | some r => monRun r.widths (if r.stopClass then r.branches else []) {} r.evs
   | none => "bad-op"
 
 /-! ### conformance: the recorded trace must be a run of the model that ends in a terminal state
@@ -268,7 +299,14 @@ def confRun (p : Shape) (widths : List Nat) : St → Nat → List Ev → ConfRes
 
 def conformance (fields : List String) : String :=
   match parseReq fields with
-  | some r => (confRun r.shape r.widths (init (List.range r.n) r.faults) 0 r.evs).render
+  | some r =>
+    if r.stopClass then
+      -- monitor-only class: the model has no Stop step
+      match r.evs.getLast? with
+      | some .finish => "ok"
+      | some .stuck => "stuck"
+      | _ => "bad-op"
+    else (confRun r.shape r.widths (init (List.range r.n) r.faults) 0 r.evs).render
   | none => "bad-op"
 
 end Wm.Pipeline.Mon
